@@ -88,7 +88,8 @@ def filter_clauses(ctx):
               'the row wrapper is not given the condition')
     # precedence: on every path through filter_rows, `condition` keeps the caller's value when that is truthy / not None and
     # is the old-style condition of (equals, not_equals) otherwise
-    frn = ctx.N(fr)
+    # factories of the module stay calls (the clause names the old-style factory by its call)
+    frn = ctx.N(fr, keep=tuple(f_.node.name for f_ in repo.functions.values() if f_.module is fr.module and f_.parent is None and f_.cls is None))
     osc = None
     ok, n = True, 0
 
@@ -135,16 +136,33 @@ def filter_clauses(ctx):
     if osc is None:
         return
     clo = returned_closure(ctx, osc)
+    eq, ne = osc.params
     if clo is None:
-        raise AnalysisError('%s: returned predicate not found' % osc.qualname)
-    rowp = clo.params[0]
+        # functools.partial(<module-level predicate>, equals, not_equals): the predicate's remaining parameter is the row
+        rets_ = [n for n in own_nodes(osc.node) if isinstance(n, ast.Return) and n.value is not None]
+        pc = rets_[0].value if len(rets_) == 1 else None
+        tgt = None
+        if isinstance(pc, ast.Call) and ctx.res.external_name(pc) == 'functools.partial' and pc.args and not pc.keywords:
+            tgt = callee(ctx, ast.Call(func=pc.args[0], args=[], keywords=[]), osc) if isinstance(pc.args[0], ast.Name) else None
+            if tgt is None and isinstance(pc.args[0], ast.Name):
+                tgt = repo.func('%s:%s' % (osc.module.name, pc.args[0].id), None)
+        if tgt is None or len(tgt.params) != len(pc.args):
+            raise AnalysisError('%s: returned predicate not found' % osc.qualname)
+        bound = dict(zip(tgt.params, [pseudo(a) for a in pc.args[1:]]))
+        inv = {v: k for k, v in bound.items()}
+        if set(inv) != {eq, ne}:
+            raise AnalysisError('%s: the predicate is not bound to (equals, not_equals)' % osc.qualname)
+        clo = tgt
+        rowp = tgt.params[-1]
+        eq, ne = inv[eq], inv[ne]
+    else:
+        rowp = clo.params[0]
     if isinstance(clo.node, ast.Lambda):
         value = clo.node.body
     else:
         body = ctx.N(clo).node.body
         body = [st for st in body if not (isinstance(st, ast.Expr) and isinstance(st.value, ast.Constant))]
         value = body[0].value if len(body) == 1 and isinstance(body[0], ast.Return) else None
-    eq, ne = osc.params
     pats = ['any((%(r)s[_k] == _v for _o in %(e)s for (_k, _v) in _o.items())) or '
             'any((%(r)s[_k2] != _v2 for _o2 in %(n)s for (_k2, _v2) in _o2.items()))',
             'any([%(r)s[_k] == _v for _o in %(e)s for (_k, _v) in _o.items()]) or '
